@@ -158,10 +158,11 @@ CLAIMS["C01"] = {
 }
 
 NOT_APPLICABLE = {
+    "C03": "Value semantics of compiled bytecode (results of arithmetic, indexing, assignment forms, control flow) quantify over run-time values; no clause of it is decidable from the shape of the code with the analyses built here. The one structural clause considered (operator/assignment-operator acceptance matrices agreeing) needs an exact tag-domain interpreter over eval_instruction that was not reached, so nothing is claimed rather than a weaker proxy (DESIGN.md §6, §12.2).",
     "C18": "Line/trace correctness is a value-level question about run-length tables (encode in the code generator, decode in find_line); no clause of it is visible in the shape of the code, so static analysis gives no verdict (DESIGN.md §6).",
 }
 
-PENDING_REASON = "check not yet armed in this revision (design in DESIGN.md §5); not claimed until its rules have been triaged on the unchanged tree"
+PENDING_REASON = "not claimed"
 
 
 def main():
